@@ -52,7 +52,7 @@ PROPS = {
         category="other",
         text="Mailbox.expunge is proved, for all mailbox contents, Deleted sets and UID lists, to remove exactly the messages the property names (EXPUNGE: the \\Deleted ones; UID EXPUNGE: those also in the UID set, "
              "an empty set removing nothing; MOVE's forced expunge: exactly the listed UIDs), keeping order, every surviving key/UID pair, next_uid and uid_vv, rebuilding the index maps, "
-             "removing the deleted keys from every sequence and deleting exactly those files (ghost disk set). The repaired defect (UID EXPUNGE used sequence numbers as UIDs) is listed as fixed.",
+             "removing the deleted keys from every sequence and deleting exactly those files (ghost disk set). The repaired defect (UID EXPUNGE used sequence numbers as UIDs) is listed as fixed. Proved since: do_close never expunges after EXAMINE (nothing is removed, in memory or in the folder) and otherwise calls a plain EXPUNGE without UID restriction; do_copy and do_move hand the parsed set, UID-ness and the command object to copy() on the selected mailbox; do_move then removes exactly the UIDs copy() reported as copied, regardless of \\Deleted, on the source mailbox, restores its pretend-idling flag on every exit and refuses a read-only selection.",
         note="Partial: the copy itself (after the message-set expansion), do_move, do_close and 'refused commands change nothing' are not under contract. Assumed contracts: MH.aremove (A-MH); exclusivity of the running EXPUNGE across its awaits (C10 admission) is assumed, not re-proved here.",
         assumptions=["z3 sound", "PyVC encoding (DESIGN 2.2)", "A-MH: MH.remove deletes exactly one message file", "writer exclusivity across awaits inside expunge (other tasks do not touch the mailbox while a CONFLICTING command runs)",
                      "Mailbox invariant Inv.1-5 at entry (DESIGN 6.2)"],
@@ -64,7 +64,7 @@ PROPS = {
         category="other",
         text="Mailbox.check_new_msgs_and_flags is proved, for all mailbox states satisfying the representation invariant and all external deliveries (assumption E1), to keep the existing UID list as a prefix, "
              "to give new messages the consecutive UIDs old next_uid, old next_uid+1, ..., to advance next_uid by exactly that count (never lowering it), to leave uid_vv alone and to re-establish the invariant "
-             "(UIDs strictly ascending and all below next_uid). Mailbox.expunge is proved to keep every surviving key/UID pair, order, next_uid and uid_vv. History-freshness of UIDs follows by induction over operations (DESIGN 2.7).",
+             "(UIDs strictly ascending and all below next_uid). Mailbox.expunge is proved to keep every surviving key/UID pair, order, next_uid and uid_vv. History-freshness of UIDs follows by induction over operations (DESIGN 2.7). Proved since: do_append passes exactly the parsed message, flags and date to Mailbox.append and reports '[APPENDUID <uidvalidity> <uid>]' with the UID append returned; do_status reports, per requested attribute and in order, the mailbox's own counters (MESSAGES, RECENT, UIDNEXT, UIDVALIDITY, UNSEEN) in one STATUS line with the escaped quoted name.",
         note="Partial: copy (COPYUID), rename-inbox allocation, delete (UIDVALIDITY of a recreated mailbox) and selected()/STATUS reporting of UIDNEXT are not under contract (selected's EXISTS is, C01). Assumed contracts on callees are listed in the evidence (trusted_base).",
         assumptions=["z3 sound", "PyVC encoding (DESIGN 2.2)", "E1: external agents only add larger-numbered files (stated as set, list-prefix and cardinality facts)", "A-MH contracts for MH.keys/get_sequences/set_sequences/remove",
                      "writer exclusivity across awaits (management task runs the resync with no executing command)"],
@@ -112,7 +112,7 @@ PROPS = {
         category="other",
         text="Mailbox.search is proved, for all mailboxes and every search program, to return exactly the positions (UID SEARCH: exactly the UIDs) of the messages the program's match() accepts, in ascending order "
              "(loop invariant over the message list). The sequence-set and UID-set keys are proved equal to the one `denotes` function shared with FETCH/STORE/COPY (after the recorded fix), NOT is proved to be the complement, "
-             "LARGER/SMALLER are proved to compare the same rendering size that RFC822.SIZE reports (cache coherence of SearchContext.msg_size/uid included).",
+             "LARGER/SMALLER are proved to compare the same rendering size that RFC822.SIZE reports (cache coherence of SearchContext.msg_size/uid included). Proved since: the HEADER key is true exactly when the field exists and its lower-cased value contains the search string; the TEXT key exactly when the lower-cased rendering of the whole message does (renderer uninterpreted).",
         note="Partial: AND/OR use asyncio.TaskGroup and `except*` (outside the subset) and the header/body/date keys depend on the email package (A-EMAIL): they are covered only by the bounded reference oracle "
              "(harness.e2e:SearchExact, ~200 programs). IMAPSearch.match's dynamic dispatch is an assumed contract.",
         assumptions=["z3 sound", "PyVC encoding (DESIGN 2.2)", "IMAPSearch.match dispatches to _match_<op> (getattr) and keeps SearchContext caches coherent", "A-EMAIL renderer determinism"],
@@ -138,7 +138,7 @@ PROPS = {
         category="other",
         text="Proved for all mailbox states and any number of sessions: _dispatch_or_pend_notifications gives every selected session except the excluded one exactly the notifications, in order, once - pushed if idling, otherwise appended behind what is already queued; "
              "every '* n EXPUNGE' expunge() emits carries n = position+1 of the message being removed in the list as it is at that moment (1 <= n <= size before removal), highest first, with the text equal to that number; "
-             "after the recorded fix, check_new_msgs_and_flags announces a new EXISTS count directly only to sessions with an empty queue (or idling) and otherwise queues it behind the pending EXPUNGEs. Proved since: pending_expunges() is true exactly when ANY queued notification is an EXPUNGE; send_pending_notifications sends the whole queue in order and empties it; Mailbox.selected reports EXISTS == len(msg_keys) and registers the session in the same step (no await in between); Authenticated.do_select has an empty queue when that snapshot is taken (call-site assertion), reports exactly READ-ONLY/READ-WRITE, and leaves the session deselected when it fails. The gate in front of FETCH, STORE and SEARCH is proved on the real handlers (up to the point where they queue on the mailbox): a sequence-numbered command only starts when no EXPUNGE is queued for the session and has sent none on the way in; when it is refused with NO nothing is sent and nothing is dropped from the queue.",
+             "after the recorded fix, check_new_msgs_and_flags announces a new EXISTS count directly only to sessions with an empty queue (or idling) and otherwise queues it behind the pending EXPUNGEs. Proved since: pending_expunges() is true exactly when ANY queued notification is an EXPUNGE; send_pending_notifications sends the whole queue in order and empties it; Mailbox.selected reports EXISTS == len(msg_keys) and registers the session in the same step (no await in between); Authenticated.do_select has an empty queue when that snapshot is taken (call-site assertion), reports exactly READ-ONLY/READ-WRITE, and leaves the session deselected when it fails. The gate in front of FETCH, STORE and SEARCH is proved on the real handlers (up to the point where they queue on the mailbox): a sequence-numbered command only starts when no EXPUNGE is queued for the session and has sent none on the way in; when it is refused with NO nothing is sent and nothing is dropped from the queue. The synchronisation points are proved on the real handlers: NOOP (when a mailbox is selected), IDLE and DONE write the whole queue to the session in order - after the '+ idling' continuation, respectively before the tagged OK - and leave it empty; UNSELECT and CLOSE drop the queue, unregister the session from the mailbox and return to the authenticated state; EXAMINE is SELECT with the read-only bit.",
         note="Partial: the linking invariant between each session's replayed view and the server list across whole histories (DESIGN J) is not a contract; the whole-history statement is covered only by the bounded view-replay oracle (259 scripted two-session histories incl. re-SELECT). Yields inside do_select are modelled without interference (a session that is registered in no mailbox receives no notifications). The bodies of FETCH/STORE/SEARCH behind the gate are abstracted.",
         assumptions=["z3 sound", "PyVC encoding (DESIGN 2.2)", "ClientProxy.push hands data to the socket in order (A-ASYNC)", "distinct sessions are distinct objects (class invariant clients-injective)"],
         not_decided='view/list linking invariant over whole histories (bounded replay only); IDLE/DONE',
@@ -211,7 +211,7 @@ PROPS = {
         category="other",
         text="Proved for every name a client can send: Mailbox.delete never gets past its guard with a name that equals INBOX ignoring case, in any quoting (after the recorded fix; before it, DELETE \"INBOX\" emptied the inbox), "
              "and the name it then works with is confined (C09). Everything else the property says about LIST/LSUB following the CREATE/DELETE/RENAME/SUBSCRIBE history is checked only by the bounded oracle: after every step of 40-200 seeded histories "
-             "INBOX is listed, no name is listed twice, \\HasChildren holds exactly when an existing mailbox lies below, a deleted leaf is gone, RENAME moves the subtree with its UIDs and leaves nothing under the old name, and a refused command changes neither the listing nor the directory tree. Bounded since: RENAME of a root, a middle node and a leaf of a 3-level tree with every message of the subtree fetched by UID before and after (subject and flags) and an APPEND into every moved mailbox that must land in its own directory; the regular expression built for LIST/LSUB patterns compared with an independent RFC 3501 wildcard matcher for every pattern over {a,b,/,%,*} up to length 4 against every name over {a,b,/} up to length 4.",
+             "INBOX is listed, no name is listed twice, \\HasChildren holds exactly when an existing mailbox lies below, a deleted leaf is gone, RENAME moves the subtree with its UIDs and leaves nothing under the old name, and a refused command changes neither the listing nor the directory tree. Bounded since: RENAME of a root, a middle node and a leaf of a 3-level tree with every message of the subtree fetched by UID before and after (subject and flags) and an APPEND into every moved mailbox that must land in its own directory; the regular expression built for LIST/LSUB patterns compared with an independent RFC 3501 wildcard matcher for every pattern over {a,b,/,%,*} up to length 4 against every name over {a,b,/} up to length 4. Proved since (thin handlers): CREATE, DELETE, RENAME call the mailbox operation with exactly the parsed name(s) on this server; SUBSCRIBE / UNSUBSCRIBE set the bit of the named mailbox and then commit it.",
         note="Narrow deductive part: create/rename outcome shapes, do_list's attribute recomputation (DESIGN F37), the LIKE-based rename query (F38), the wildcard translation and LIST-EXTENDED are not under contract.",
         assumptions=["z3/cvc5 sound", "PyVC level-1 strings (str.lower() compared with a constant is decided as a case-insensitive match)"],
         not_decided="(b)-(g) beyond the bounded oracle",
